@@ -315,7 +315,78 @@ def run(ctx):
                     ctx.report(r_dirty, k, "%s does not (unconditionally) mark the dataset as changed: a stand-off dataset file is not rewritten by save() after this mutation and the change is lost on reload" % k, im["_file"], m["l"])
     ctx.floor(r_dirty, n_cb, 4, "dataset mutation callbacks")
 
+    clean_rule(ctx, syn)
+    positional_rule(ctx, syn)
     mir_rules(ctx)
+
+
+def positional_rule(ctx, syn):
+    """items without a public id are written with positional temporary ids (!D<n>): the reader must put item n on slot n.
+    A reader that resolves temporary ids and inserts with the duplicate check *on* drops an item equal to an earlier one,
+    so its position stays empty and every reference to it dangles."""
+    r = ctx.rule("C05.POSITIONAL", "a reader that maps temporary ids back to positions stores every item it reads: it inserts with the duplicate check off (an equal earlier item must not swallow a later one)")
+    n = 0
+    for im in syn.impls:
+        tr = im.get("trait") or ""
+        if "Visitor" not in tr:
+            continue
+        for m in im["items"]:
+            if m.get("k") != "fn" or m["name"] != "visit_seq" or not m.get("body"):
+                continue
+            calls = [unparse(c["func"]) for c in find(m["body"], "call")]
+            if not any(c.endswith("resolve_temp_id") for c in calls):
+                continue
+            for c in find(m["body"], "mcall"):
+                if c["method"] in ("build_insert_data", "insert_data") and c["args"]:
+                    n += 1
+                    flag = unparse(strip(c["args"][-1]))
+                    key = "%s|%s" % (norm_ty(im["self_ty"]["s"]), c["method"])
+                    r.hit(key, sample={"reader": norm_ty(im["self_ty"]["s"]), "call": c["method"], "duplicate_check": flag})
+                    if flag != "false":
+                        ctx.report(r, key, "%s resolves temporary ids by position but inserts with the duplicate check `%s`: a data item without public id that equals an earlier one is merged into it, its slot stays empty, and the annotation that refers to it by !D<n> fails to load (or the store comes back with fewer items)" % (norm_ty(im["self_ty"]["s"]), flag), im.get("_file"), c.get("l"))
+    ctx.floor(r, n, 1, "positional readers that insert data")
+
+
+def clean_rule(ctx, syn):
+    """the changed flag of a stand-off member decides whether save() rewrites its file; it may be cleared only when the
+    member's *own* file was written.  A function that writes to a path it is given clears it only under path == self.filename()."""
+    r = ctx.rule("C05.CLEAN", "a function that writes a stand-off member to a path given by the caller clears the member's changed flag only if that path is the member's own file (guard comparing the parameter with self.filename())")
+    n = 0
+    for fn in syn.fns:
+        if not fn.body:
+            continue
+        marks = [m for m in walk(fn.body) if m.get("k") == "mcall" and m["method"] == "mark_unchanged" and unparse(strip(m["recv"])) == "self"]
+        if not marks:
+            continue
+        n += 1
+        params = [i["pat"].get("name") for i in fn.sig["inputs"] if i.get("pat") and re.sub(r"\s+", "", (i.get("ty") or {}).get("s", "")) in ("&str", "&String", "String", "&Path", "impl AsRef<Path>")]
+        r.hit(fn.qual, sample={"fn": fn.qual, "path_parameters": params})
+        if not params:
+            continue
+
+        def conds_of(root, target):
+            stack = [(root, [])]
+            while stack:
+                n_, cs = stack.pop()
+                if n_ is target:
+                    return cs
+                if not isinstance(n_, dict):
+                    continue
+                if n_.get("k") == "if":
+                    stack.append((n_["cond"], cs))
+                    stack.append((n_["then"], cs + [unparse(n_["cond"])]))
+                    if n_.get("else"):
+                        stack.append((n_["else"], cs))
+                    continue
+                from synq import children
+                for c_ in children(n_):
+                    stack.append((c_, cs))
+            return []
+        for m in marks:
+            cs = " && ".join(conds_of(fn.body, m))
+            if not any(re.search(r"\b%s\b" % re.escape(p_), cs) and "filename()" in cs for p_ in params):
+                ctx.report(r, fn.qual, "%s writes to the path `%s` it is given and then clears the changed flag without comparing that path with self.filename(): exporting the member somewhere else makes save() skip the member's own stand-off file, and the store cannot be loaded back" % (fn.qual, params[0]), fn.file, m.get("l"))
+    ctx.floor(r, n, 3, "functions that clear a changed flag")
 
 
 def mir_rules(ctx):
